@@ -265,7 +265,7 @@ HARNESSES = [
         instances=_instances,
         models=["syminterp", "symdict", "symnp"],
         vectors=_vectors,
-        budget={"quick": 150.0, "thorough": 900.0},
+        budget={"quick": 200.0, "thorough": 900.0}, per_path_timeout=40.0,  # non-linear rate queries: 20 s per z3 query
         functions=["Part._time_interpolator", "Part.beat_map", "Part.inv_beat_map", "Part.quarter_map",
                    "Part.inv_quarter_map", "Part.quarter_duration_map", "Part.use_musical_beat",
                    "Part.set_musical_beat_per_ts", "Part.set_quarter_duration", "generic.interp1d"],
